@@ -101,3 +101,31 @@ def maxerr(a, b):
     if a.size == 0:
         return 0.0
     return float(np.max(np.abs(a - b)))
+
+
+def bystander(ctx, fn, counters, what="an object built and evaluated earlier returns something else after another object was built and used"):
+    """Cross-object isolation monitor.  `fn()` recomputes a value on the CURRENT case's object (same arguments every time).  The closure of
+    the previous case of this shard is called again now - after the current object has been built and exercised - and must reproduce the
+    value it returned then; afterwards the current closure and value are remembered.  Returns a witness dict or None."""
+    import contextlib
+    import io
+    wit = None
+    prev = ctx.get("_bystander")
+    if prev is not None:
+        pfn, pval = prev
+        try:
+            with contextlib.redirect_stdout(io.StringIO()), np.errstate(all="ignore"):
+                again = [np.asarray(v, dtype=float) for v in pfn()]
+            counters["bystander_rechecks"] = counters.get("bystander_rechecks", 0) + 1
+            same = len(again) == len(pval) and all(a.shape == b.shape and np.array_equal(a, b, equal_nan=True) for a, b in zip(again, pval))
+            if not same:
+                wit = {"what": what, "then": [v.tolist() for v in pval][:4], "now": [v.tolist() for v in again][:4]}
+        except Exception as e:
+            wit = {"what": what + " (it now raises)", "error": short_exc(e), "tb": tb_tail(e)}
+    try:
+        with contextlib.redirect_stdout(io.StringIO()), np.errstate(all="ignore"):
+            val = [np.asarray(v, dtype=float) for v in fn()]
+        ctx["_bystander"] = (fn, val)
+    except Exception:
+        ctx["_bystander"] = None
+    return wit
